@@ -1368,3 +1368,39 @@ Example ex6_build_bindings_file_scope :
   [([103; 99; 99; 32; 45; 87; 101; 120; 116; 114; 97; 32; 45; 79; 48; 32; 45; 99; 32; 97; 46; 99; 32; 45; 111; 32; 97; 46; 111], [67; 67; 91; 100; 101; 118; 93; 32; 97; 46; 111]); ([103; 99; 99; 32; 45; 87; 97; 108; 108; 32; 45; 79; 48; 32; 45; 103; 32; 45; 99; 32; 98; 46; 99; 32; 45; 111; 32; 98; 46; 111], [67; 67; 91; 100; 101; 118; 93; 32; 98; 46; 111]); ([103; 99; 99; 32; 45; 87; 97; 108; 108; 32; 45; 79; 48; 32; 45; 99; 32; 99; 46; 99; 32; 45; 111; 32; 99; 46; 111], [67; 67; 91; 100; 101; 118; 45; 115; 105; 103; 110; 101; 100; 93; 32; 99; 46; 111])].
 Proof. vm_compute. reflexivity. Qed.
 
+
+(* ================================================================ an empty build-level binding still shadows *)
+
+(* the binding is recorded whatever its value - also when the value is, or evaluates to, the empty string ... *)
+Lemma empty_build_binding_recorded sc n v ps :
+  fst (eval_in_scope sc v) = [] -> aget n (fst (build_bindings sc [BBind n v] ps)) = Some [].
+Proof.
+  intros H. rewrite build_bindings_see_file_scope_only. cbn [fold_left bind_in_file_scope]. rewrite H.
+  apply aget_aset_same.
+Qed.
+
+(* ... and the lookup finds the BINDING, not its emptiness: the rule-level text and the file-level value of the
+   name are not consulted (the "reset" idiom: `flags =` under a build statement) *)
+Theorem empty_build_binding_shadows sc n v ps fuel ex outs rule sc' esc active :
+  ~ special_name n -> fst (eval_in_scope sc v) = [] ->
+  lookup_var (S fuel) (mkCtx ex outs (fst (build_bindings sc [BBind n v] ps)) rule sc' esc) active n = ([], []).
+Proof.
+  intros Hs He. rewrite (lookup_order _ _ _ _ Hs). cbn [bx_params].
+  rewrite (empty_build_binding_recorded sc n v ps He). reflexivity.
+Qed.
+
+(* flags = -O2 / depflags = -MD / pool link_pool: depth = 1
+   rule cc / command = cc $flags $depflags -c $in -o $out / description = CC $out / depfile = $out.d / pool = link_pool
+   build a.o: cc a.c
+   build b.o: cc b.c / flags = / description =
+   build c.o: cc c.c / depfile = $undefined / depflags = / pool =
+   (what ninja 1.11.1 gives: the empty overrides hide the rule-level and file-level values) *)
+Definition ex7_files : files :=
+  [([47; 119; 47; 109; 97; 105; 110; 46; 110; 105; 110; 106; 97], [DBinding [102; 108; 97; 103; 115] [45; 79; 50]; DBinding [100; 101; 112; 102; 108; 97; 103; 115] [45; 77; 68]; DPool [108; 105; 110; 107; 95; 112; 111; 111; 108] [BBind [100; 101; 112; 116; 104] [49]]; DRule [99; 99] [BBind [99; 111; 109; 109; 97; 110; 100] [99; 99; 32; 36; 102; 108; 97; 103; 115; 32; 36; 100; 101; 112; 102; 108; 97; 103; 115; 32; 45; 99; 32; 36; 105; 110; 32; 45; 111; 32; 36; 111; 117; 116]; BBind [100; 101; 115; 99; 114; 105; 112; 116; 105; 111; 110] [67; 67; 32; 36; 111; 117; 116]; BBind [100; 101; 112; 102; 105; 108; 101] [36; 111; 117; 116; 46; 100]; BBind [112; 111; 111; 108] [108; 105; 110; 107; 95; 112; 111; 111; 108]];
+         DBuild [[97; 46; 111]] [99; 99] [[97; 46; 99]] [] [] []; DBuild [[98; 46; 111]] [99; 99] [[98; 46; 99]] [] [] [BBind [102; 108; 97; 103; 115] []; BBind [100; 101; 115; 99; 114; 105; 112; 116; 105; 111; 110] []]; DBuild [[99; 46; 111]] [99; 99] [[99; 46; 99]] [] [] [BBind [100; 101; 112; 102; 105; 108; 101] [36; 117; 110; 100; 101; 102; 105; 110; 101; 100]; BBind [100; 101; 112; 102; 108; 97; 103; 115] []; BBind [112; 111; 111; 108] []]])].
+Example ex7_empty_binding_shadows :
+  map (fun c => (c_command c, c_description c, c_deps c, c_depfile c, c_pool c)) (mf_commands (load 64 [47; 119] ex7_files [109; 97; 105; 110; 46; 110; 105; 110; 106; 97])) =
+  [([99; 99; 32; 45; 79; 50; 32; 45; 77; 68; 32; 45; 99; 32; 97; 46; 99; 32; 45; 111; 32; 97; 46; 111], [67; 67; 32; 97; 46; 111], DepsGCC, [97; 46; 111; 46; 100], Some [108; 105; 110; 107; 95; 112; 111; 111; 108]); ([99; 99; 32; 32; 45; 77; 68; 32; 45; 99; 32; 98; 46; 99; 32; 45; 111; 32; 98; 46; 111], [], DepsGCC, [98; 46; 111; 46; 100], Some [108; 105; 110; 107; 95; 112; 111; 111; 108]); ([99; 99; 32; 45; 79; 50; 32; 32; 45; 99; 32; 99; 46; 99; 32; 45; 111; 32; 99; 46; 111], [67; 67; 32; 99; 46; 111], DepsNone, [], None)] /\
+  mf_errors (load 64 [47; 119] ex7_files [109; 97; 105; 110; 46; 110; 105; 110; 106; 97]) = [].
+Proof. vm_compute. split; reflexivity. Qed.
+
